@@ -16,7 +16,7 @@ Print Assumptions C10_no_raise.
 
 (* EchoPort: received ++ still queued = the messages in the order they were appended - each exactly once, nothing invented *)
 Theorem C10_echo_exactly_once : forall c, c_locking c = true -> forall progs, (forall t m, In (Send m) (progs t) -> valid m = true) ->
-  forall sched, c_kind c = KEcho -> let s := fst (crun c sched (cinit progs)) in map snd (stream s) = recvd s ++ q s.
+  forall sched, c_kind c = KEcho -> let s := fst (crun c sched (cinit progs)) in map snd (stream s) = map snd (recvd s) ++ q s.
 Proof. exact echo_fifo. Qed.
 Print Assumptions C10_echo_exactly_once.
 
@@ -24,13 +24,13 @@ Print Assumptions C10_echo_exactly_once.
    of the messages in the order their senders obtained the port (the complete ones among the bytes read so far) *)
 Theorem C10_device_intact : forall c, c_locking c = true -> forall progs, (forall t m, In (Send m) (progs t) -> valid m = true) ->
   forall sched, c_kind c = KDevice -> let s := fst (crun c sched (cinit progs)) in
-  recvd s ++ q s = complete_prefix (map snd (stream s)) (length (allread s)) /\ exists rest, map snd (stream s) = (recvd s ++ q s) ++ rest.
+  map snd (recvd s) ++ q s = complete_prefix (map snd (stream s)) (length (allread s)) /\ exists rest, map snd (stream s) = (map snd (recvd s) ++ q s) ++ rest.
 Proof. exact device_intact. Qed.
 Print Assumptions C10_device_intact.
 (* ... and once no sender is writing and the device has been read empty, that is everything that was sent *)
 Theorem C10_device_all_delivered : forall c, c_locking c = true -> forall progs, (forall t m, In (Send m) (progs t) -> valid m = true) ->
   forall sched, c_kind c = KDevice -> let '(s, ts) := crun c sched (cinit progs) in
-  (forall t m r, at_ (ts t) <> SWrite m r) -> devbuf s = [] -> map snd (stream s) = recvd s ++ q s.
+  (forall t m r, at_ (ts t) <> SWrite m r) -> devbuf s = [] -> map snd (stream s) = map snd (recvd s) ++ q s.
 Proof. exact device_all_delivered. Qed.
 Print Assumptions C10_device_all_delivered.
 
@@ -39,6 +39,13 @@ Theorem C10_sender_order : forall c, c_locking c = true -> forall progs, (forall
   forall sched t, let '(s, ts) := crun c sched (cinit progs) in sends (progs t) = mine t (stream s) ++ pending_sends (c_kind c) (ts t).
 Proof. exact sender_order. Qed.
 Print Assumptions C10_sender_order.
+
+(* every popped message reaches exactly one caller: what thread t's receive / poll / iter_pending calls have returned (or are returning), in
+   order, is exactly what thread t popped from the port, in order ([recvd] records every pop once, with the popping thread) *)
+Theorem C10_callers : forall c, c_locking c = true -> forall progs, (forall t m, In (Send m) (progs t) -> valid m = true) -> (forall t, clean (progs t)) ->
+  forall sched t, let '(s, ts) := crun c sched (cinit progs) in got (ts t) = mine t (recvd s).
+Proof. exact callers_get_what_was_popped. Qed.
+Print Assumptions C10_callers.
 
 (* without the lock (a DummyLock on a port whose deque is shared - IOPort.receive before its repair) the property fails: a schedule *)
 Theorem C10_unlocked_refuted : at_ (snd (crun unlocked [0; 0; 0; 1; 1; 2; 2; 1; 2]%nat (cinit race_progs)) 2%nat) = Raised IndexError.
